@@ -17,6 +17,18 @@ pub struct SecEqCase {
     pub c: String,
 }
 
+/// a caller-supplied Hasher sees every byte it is given: what a value feeds it is published to the caller
+#[derive(Default)]
+struct Recording(Vec<u8>);
+impl Hasher for Recording {
+    fn finish(&self) -> u64 {
+        0
+    }
+    fn write(&mut self, bytes: &[u8]) {
+        self.0.extend_from_slice(bytes);
+    }
+}
+
 fn h<T: Hash>(t: &T) -> u64 {
     let mut s = DefaultHasher::new();
     t.hash(&mut s);
@@ -57,6 +69,16 @@ fn run<T: PartialEq + Eq + Hash + 'static>(c: &SecEqCase, mk: fn(String) -> T) -
             oracle.push(("C20:hash-inconsistent".into(), format!("equal values hash to {other_thread:#x} on another thread and {:#x} on this one: {:?}", h(&a), c.a)));
         }
     }
+    // the secret is obtainable only through the named accessor: not through what `Hash` hands to a caller-supplied Hasher
+    if c.a.len() >= 6 {
+        let mut rec = Recording::default();
+        a.hash(&mut rec);
+        let needle = c.a.as_bytes();
+        let window = &needle[..needle.len().min(16)];
+        if rec.0.windows(window.len()).any(|w| w == window) {
+            oracle.push(("C10:hash-exposes-plaintext".into(), format!("Hash::hash of a secret {:?} wrote its plaintext to the Hasher", shorten(&c.a))));
+        }
+    }
     // keys of a hash collection
     let mut set = HashSet::new();
     set.insert(mk(c.a.clone()));
@@ -70,22 +92,32 @@ fn run<T: PartialEq + Eq + Hash + 'static>(c: &SecEqCase, mk: fn(String) -> T) -
     Exec { line, oracle, class: format!("ty{}", c.ty) }
 }
 
+fn shorten(s: &str) -> String {
+    s.chars().take(40).collect()
+}
+
 impl CaseInput for SecEqCase {
     const OP: &'static str = "seceq";
     fn generate(r: &mut Rng, idx: u64) -> Self {
-        let a = match r.below(6) {
-            0 => String::new(),
+        let a = match r.below(12) {
+            0 | 6 => String::new(),
+            // long secrets (a JWT with many claims): equality and hashing look at all of it
+            7 => gen::alnum(r, 40).repeat(*r.pick(&[103usize, 110, 205, 410])),
             1 => "é".into(),          // NFC
             2 => gen::alnum(r, 40),
             _ => gen::hostile_s(r),
         };
         let variant = |r: &mut Rng, a: &str| -> String {
             let chars: Vec<char> = a.chars().collect();
-            match r.below(10) {
+            match if a.len() > 1000 { r.below(2) } else { r.below(10) } {
                 0 => a.to_string(),
                 1 if !chars.is_empty() => {
-                    // differ in exactly one position (every offset is reachable)
-                    let i = r.below(chars.len() as u64) as usize;
+                    // differ in exactly one position (every offset is reachable; for long values favour the far end)
+                    let i = if chars.len() > 1000 && r.chance(2, 3) {
+                        chars.len() - 1 - r.below(64) as usize
+                    } else {
+                        r.below(chars.len() as u64) as usize
+                    };
                     let mut c = chars.clone();
                     c[i] = if c[i] == 'x' { 'y' } else { 'x' };
                     c.into_iter().collect()
